@@ -550,6 +550,16 @@ func c11Outputs(c *core.Ctx) {
 		probe := func(name string, exit int) string {
 			return fmt.Sprintf("%s probe %s %d", self, filepath.Join(h.root, name+".json"), exit)
 		}
+		// the producer's streams may be redirected to files as well: capture must not care
+		redirects := ""
+		switch idx % 6 {
+		case 1:
+			redirects = "    stdout: " + yq(filepath.Join(h.root, "produce.stdout")) + "\n"
+			c.Count("producers_with_a_stdout_file", 1)
+		case 4:
+			redirects = "    stdout: " + yq(filepath.Join(h.root, "produce.stdout")) + "\n    stderr: " + yq(filepath.Join(h.root, "produce.stderr")) + "\n"
+			c.Count("producers_with_a_stdout_file", 1)
+		}
 		loc := filepath.Join(h.dags, "o.yaml")
 		// gate: the last step fails in the first run (so that a retry re-executes it) and succeeds afterwards
 		gate := filepath.Join(h.root, "gate")
@@ -570,7 +580,7 @@ func c11Outputs(c *core.Ctx) {
 			c.Count("cases_with_same_name_in_env_section", 1)
 		}
 		text := head + "handlerOn:\n  exit:\n    command: " + yq(probe("onexit", 0)) + "\n  failure:\n    command: " + yq(probe("onfailure", 0)) + "\n  success:\n    command: " + yq(probe("onsuccess", 0)) +
-			"\nsteps:\n  - name: produce\n    command: " + yq(producer) + "\n    output: CAPTURED\n" + produceExtra +
+			"\nsteps:\n  - name: produce\n    command: " + yq(producer) + "\n    output: CAPTURED\n" + redirects + produceExtra +
 			"  - name: next\n    command: " + yq(nextCmd) + "\n    depends: [produce]\n" +
 			"  - name: middle\n    command: \"true\"\n    depends: [next]\n" +
 			"  - name: late\n    command: " + last + "\n    depends: [middle]\n"
